@@ -239,6 +239,19 @@ def c06(pid, tier, t0):
         "marks are compared only while their line exists in the reference"])
 
 
+@check("C15")
+def c15(pid, tier, t0):
+    exe = nv.build_harness("c15_global", "asan", ["c15_global.c"], wraps=WRAPS)
+    res = nv.run_shards(exe, ["tier=" + tier, "deadline=%d" % dl(tier)], nv.NCPU, dl(tier) + 120)
+    return nv.finish(pid, tier, t0, res, {
+        "rule": "patterns {a, ^$, b$, .} x {g, g!, v} x ranges {none, %, 2,3, 2,$} x 18 command lists (d, -1d, +1d, .,+1d, s/a/b/, s/a/ab/g, pu a, 0pu a, i|x|., a|x|., c|x|., -1a|a|., d|pu, s/a/c/|-1d, "
+                "nested g/b/d, nested g/a/s/a/b/, y b|pu b, ka|'ad) x every buffer of 1..buffer_lines lines over the contents {a, b, ab, empty}; distinct_nontrivial = globals that change the buffer",
+        "depth_bound": res.stats.get("buffer_lines"),
+        "explanation": "real :g through ex_command on an initialised editor (AddressSanitizer build); reference keeps line identities: the lines of the range that still exist are visited once in order, "
+                       "inserted lines never; the number of executions is observed through the text blocks the command list consumes; one :u must restore the pre-global text",
+    }, ["a command list whose last command is rejected stops the global (ex convention, as in the implementation)", "current line after the global is not compared"])
+
+
 def replay(path):
     print("replay artefact:")
     print(open(path).read())
